@@ -6,7 +6,7 @@ func extraRules() []*Rule {
 	out = append(out, rulesLocks()...)
 	out = append(out, rulesTables()...)
 	out = append(out, rulesStorage()...)
-	out = append(out, ruleLifecycle(), ruleHeartbeat(), ruleRecordOffset(), ruleFollowerLookup(), ruleOffsetOwner(), ruleSendLabel(), ruleVerifyRound(), ruleContactRefresh(), ruleHandlerDemote(), rulePrevoteToken(), ruleApplyWait(), ruleRestoreReconcile(), ruleOptionRange(), rulePartialReset(), ruleLeaseDuration())
+	out = append(out, ruleLifecycle(), ruleHeartbeat(), ruleRecordOffset(), ruleFollowerLookup(), ruleOffsetOwner(), ruleSendLabel(), ruleVerifyRound(), ruleContactRefresh(), ruleHandlerDemote(), rulePrevoteToken(), ruleApplyWait(), ruleRestoreReconcile(), ruleOptionRange(), rulePartialReset(), ruleLeaseDuration(), ruleLogPosition())
 	return out
 }
 
@@ -36,6 +36,9 @@ func extraSpecs() []*PropertySpec {
 		{ID: "C08", Rules: []string{"RESTORE-COVER"}, Thorough: []string{"STATE-ATOMIC"}, Decided: "restore reloads currentTerm and votedFor from results #0/#1 of StateStorage.State()"},
 		{ID: "C10", Rules: []string{"RESTORE-COVER"}, Decided: "restore takes lastApplied, commitIndex and the snapshot boundary from the metadata of the very file handed to StateMachine.Restore"},
 		{ID: "C05", Rules: []string{"VERIFY-ROUND"}, Decided: "a read is marked quorum-verified only by a heartbeat round that was started after the read was submitted (per-operation stamp strictly below the round's identifier, which is fixed when the round starts)"},
+		{ID: "C12", Rules: []string{"LOG-POSITION"}, Decided: "the log file is never in append mode and is positioned whenever a new descriptor is installed, so a record's Offset is where the record is"},
+		{ID: "C19", Rules: []string{"LOG-POSITION"}, Decided: "as C12: offsets read back from storage equal the positions written"},
+		{ID: "C06", Rules: []string{"LOG-POSITION"}, Decided: "Truncate cuts the persistent log where the in-memory log says"},
 		{ID: "C17", Rules: []string{"LEASE-DURATION"}, Decided: "every lease, in particular a new leader's, is extended at each renewal by the CONFIGURED lease duration, for which the timing assumption is stated"},
 		{ID: "C17", Rules: []string{"CONTACT-REFRESH"}, Decided: "every AppendEntries reply that the leader counts towards its lease quorum (accepted or rejected for a log mismatch) was preceded by the voter's refresh of lastContact, the promise the lease rests on"},
 		{ID: "C16", Rules: []string{"CONTACT-REFRESH"}, Decided: "a voter in contact with the leader (any non-stale AppendEntries, also a rejected one) refreshes lastContact, which is what makes it ignore vote requests"},
